@@ -48,6 +48,7 @@ MODELLED RATHER THAN VERIFIED (what the statements below do not cover):
 * termination of the underlying `run_a_star` and of `backtrack` is C01's subject; here only the
   loops of the two k-shortest-paths algorithms are shown to end.
 -/
+import Compass.Model.Search
 import Compass.Gen.Decisions
 import Compass.Proofs.Num
 import Compass.Model.Ksp
@@ -1609,6 +1610,12 @@ theorem src_ksp_factor (f k n : Nat) :
     some ((KspTerm.factor f).terminate k n) =
       (ksp_exact.nat n k).bind fun a => (ksp_factor.nat (f * n) k).map fun b => a && b := by
   simp [KspTerm.terminate, ksp_exact, ksp_factor, Rel.nat]
+
+/-- shared by every search property: the label test of `run_a_star`'s relaxation (`improves`) is the
+source's `tentative_gscore < existing_gscore`; with `<=` an equal-cost arrival re-labels an expanded vertex -/
+theorem src_relax_improves {α : Type} [Field α] [LinearOrder α] [IsStrictOrderedRing α] [Lit α] [LawfulLit α] (tent ex : α) :
+    some (improves tent (some ex)) = relax_improves.num tent ex := by
+  simp [improves, relax_improves, Rel.num]
 
 end C13
 end Compass
